@@ -935,6 +935,49 @@ func (g *Graph) factsLattice() Lattice[Facts] {
 						}
 					}
 				}
+				// x += y with y not constant (a cursor advancing through a buffer): when y was checked against what
+				// is left of a buffer D - len(D[x:]) < y false, or len(D) - x < y false - the cursor stays inside D;
+				// a non-negative cursor advanced by a non-negative amount stays non-negative
+				if as, isAs := st.Node.(*ast.AssignStmt); isAs && as.Tok == token.ADD_ASSIGN && len(as.Lhs) == 1 && len(as.Rhs) == 1 && len(s.rel) > 0 {
+					if xid, isId := ast.Unparen(as.Lhs[0]).(*ast.Ident); isId {
+						if _, isK := constInt(info, as.Rhs[0]); !isK {
+							if t := info.TypeOf(xid); t != nil {
+								if _, _, isInt := intInfo(t); isInt {
+									ys := normStr(info, as.Rhs[0])
+									var d *dbm
+									for atom, ra := range s.rel {
+										if v, has := s.m[atom]; !has || v || ra.Op != token.LSS || normStr(info, ra.Y) != ys {
+											continue
+										}
+										// ra.X is what is left of D behind the cursor
+										var buf ast.Expr
+										switch lx := ast.Unparen(ra.X).(type) {
+										case *ast.CallExpr:
+											if exprStr(lx.Fun) == "len" && len(lx.Args) == 1 {
+												if sl, isSl := ast.Unparen(lx.Args[0]).(*ast.SliceExpr); isSl && sl.High == nil && sl.Low != nil && exprStr(ast.Unparen(sl.Low)) == xid.Name {
+													buf = sl.X
+												}
+											}
+										case *ast.BinaryExpr:
+											if lx.Op == token.SUB && exprStr(ast.Unparen(lx.Y)) == xid.Name {
+												if lc, isC := ast.Unparen(lx.X).(*ast.CallExpr); isC && exprStr(lc.Fun) == "len" && len(lc.Args) == 1 {
+													buf = lc.Args[0]
+												}
+											}
+										}
+										if buf != nil && !mentions(normStr(info, buf), xid.Name) {
+											carry = append(carry, shifted{xid, &ast.CallExpr{Fun: ast.NewIdent("len"), Args: []ast.Expr{buf}}, 0})
+										}
+									}
+									d = newDBM(g, s, nil)
+									if d.nonNeg(xid) && d.nonNeg(as.Rhs[0]) {
+										carry = append(carry, shifted{nil, xid, 0})
+									}
+								}
+							}
+						}
+					}
+				}
 				for _, l := range lhs {
 					if id, ok := l.(*ast.Ident); ok && id.Name == "_" {
 						continue
@@ -1125,6 +1168,13 @@ func (g *Graph) factsLattice() Lattice[Facts] {
 										n.setRel(token.EQL, lhs, rhs, true)
 									} else if rid, ok := rhs.(*ast.Ident); ok && rid.Name != lhsStr {
 										n.setRel(token.EQL, lhs, rhs, true)
+										// the copy keeps what is known about the sign of the original (the original's
+										// name may be shadowed and its facts killed later)
+										if len(n.rel) > 1 && len(n.rel) < 40 {
+											if d := newDBM(g, n, nil); d.nonNeg(rhs) {
+												n.setRel(token.LSS, lhs, &ast.BasicLit{Kind: token.INT, Value: "0"}, false)
+											}
+										}
 									} else if _, ok := rhs.(*ast.SelectorExpr); ok && isFieldPath(rhs) && !mentions(exprStr(rhs), lhsStr) {
 										// a local copy of a field
 										n.setRel(token.EQL, lhs, rhs, true)
